@@ -76,4 +76,19 @@ mod verif_kani {
         }
         kani::cover!(r.is_ok());
     }
+
+    /// quick tier: encoder layout only
+    #[kani::proof]
+    #[kani::unwind(64)]
+    fn urlencode_layout() {
+        let data: [u8; 20] = kani::any();
+        let mut out = [0u8; 64];
+        let mut cur = std::io::Cursor::new(&mut out[..]);
+        urlencode_20_bytes(data, &mut cur).unwrap();
+        assert!(cur.position() == 60, "[C14.ident.encode.len] 60 bytes");
+        let i: usize = kani::any();
+        kani::assume(i < 20);
+        assert!(out[3 * i] == b'%' && out[3 * i + 1] == LOWER[(data[i] >> 4) as usize] && out[3 * i + 2] == LOWER[(data[i] & 15) as usize],
+            "[C14.ident.encode.layout] %hh per byte, lowercase hex");
+    }
 }
